@@ -305,6 +305,10 @@ pub fn gen_case(prop: &str, rng: &mut Rng) -> Case {
     let w_settle = *rng.pick(&[0u32, 2, 6]);
     let grow_bias = rng.chance(1, 2);
 
+    // bursts: stretches of producer steps during which woken consumers are not polled (this is what
+    // lets a consumer fall behind while it is in the middle of yielding a multi-diff batch)
+    let burst_p = *rng.pick(&[0usize, 1, 2, 4]);
+    let mut burst_left = 0usize;
     let mut steps: Vec<Step> = Vec::new();
     // most runs want a consumer early
     if p.w_sub > 0 && rng.chance(4, 5) {
@@ -403,6 +407,11 @@ pub fn gen_case(prop: &str, rng: &mut Rng) -> Case {
                 0..=5 => {
                     sh.len = sh.tx.take().unwrap();
                     steps.push(Step::TxCommit);
+                    if sh.consumers > 0 && rng.chance(burst_p, 8) {
+                        // take the first diff of the batch only, then let the writer run ahead
+                        steps.push(Step::Poll(rng.below(sh.consumers)));
+                        burst_left = 2 + rng.below(5);
+                    }
                 }
                 6 | 7 => {
                     sh.tx = None;
@@ -483,7 +492,12 @@ pub fn gen_case(prop: &str, rng: &mut Rng) -> Case {
                 steps.push(Step::DropConsumer(rng.below(sh.consumers)));
             }
         }
-        if producer && sh.consumers > 0 {
+        if burst_left > 0 {
+            burst_left -= 1;
+        } else if rng.chance(burst_p, 40) {
+            burst_left = 2 + rng.below(5);
+        }
+        if producer && sh.consumers > 0 && burst_left == 0 {
             // wake delivery: how many of the woken consumers get to run now
             for _ in 0..eager {
                 if rng.chance(2, 3) {
